@@ -62,8 +62,9 @@ Record plain_desc := {
 
 Definition is_nil {A} (l:list A) : bool := match l with [] => true | _ => false end.
 
-Fixpoint find_field (k:string) (fs:list field) : option field :=
-  match fs with [] => None | f :: r => if String.eqb k (f_name f) then Some f else find_field k r end.
+Fixpoint findk {A} (key:A -> string) (k:string) (l:list A) : option A :=
+  match l with [] => None | x :: r => if String.eqb k (key x) then Some x else findk key k r end.
+Definition find_field : string -> list field -> option field := findk f_name.
 Fixpoint find_case (c:N) (cs:list dec_case) : option dec_case :=
   match cs with [] => None | x :: r => if c =? dc_const x then Some x else find_case c r end.
 Fixpoint lookupN {A} (k:N) (l:list (N * A)) : option A :=
@@ -366,12 +367,19 @@ Definition opt_fmt (t:ie_type) (e:list wr) (r:list rd) : option wire_fmt :=
 (* one row of the normal form of a descriptor: the field, its IEI constant (0 for mandatory fields), its format *)
 Record nf_field := mk_nf { nf_name : string; nf_type : ie_type; nf_opt : bool; nf_iei : N; nf_fmt : wire_fmt }.
 
-Fixpoint find_eg (k:string) (l:list enc_group) : option enc_group :=
-  match l with [] => None | g :: r => if String.eqb k (eg_field g) then Some g else find_eg k r end.
-Fixpoint find_dg (k:string) (l:list dec_group) : option dec_group :=
-  match l with [] => None | g :: r => if String.eqb k (dg_field g) then Some g else find_dg k r end.
-Fixpoint find_case_of (k:string) (l:list dec_case) : option dec_case :=
-  match l with [] => None | c :: r => if String.eqb k (dc_field c) then Some c else find_case_of k r end.
+Definition find_eg : string -> list enc_group -> option enc_group := findk eg_field.
+Definition find_dg : string -> list dec_group -> option dec_group := findk dg_field.
+Definition find_case_of : string -> list dec_case -> option dec_case := findk dc_field.
+
+(* the octets a field contributes to the wire, read off its format *)
+Definition len_bytes (w:nat) (l:N) : bytes :=
+  match w with 1%nat => [l] | 2%nat => [l / 256; l mod 256] | _ => [] end.
+Definition enc_nf (x:nf_field) (v:fval) : bytes :=
+  if fv_present v then
+    (if w_half (nf_fmt x) then fv_body v
+     else (if w_tag (nf_fmt x) then [fv_iei v] else []) ++ len_bytes (w_lenw (nf_fmt x)) (fv_len v) ++
+          match w_body (nf_fmt x) with WUpto _ => firstn (N.to_nat (fv_len v)) (fv_body v) | _ => fv_body v end)
+  else [].
 
 Definition nf_of_field (d:msg_desc) (f:field) : option nf_field :=
   if negb (is_nil (t_odd (f_type f))) then None else
